@@ -74,9 +74,11 @@ Definition near (v : value) (lo hi : float) : res bool :=
   Ok (a && b).
 
 Definition pct_to_raw (v : value) : res value :=
+  match v with VNone => Ok VNone | _ =>        (* @noneable *)
   do z <- near v (PrimFloat.opp EPS) EPS;
   if z then Ok (VFlt 0)
-  else do f <- fnum v; Ok (VFlt (PrimFloat.mul (PrimFloat.div f 100) 65535)).
+  else do f <- fnum v; Ok (VFlt (PrimFloat.mul (PrimFloat.div f 100) 65535))
+  end.
 
 (* units.logical_to_raw *)
 Definition logical_to_raw (c : list value) : res (list value) :=
